@@ -230,22 +230,34 @@ def _grid_job(scratch, tier):
     return res
 
 
+GRID_OPS = {
+    "eq": ("C16.eq", lambda A, B: A == B),
+    "ne": ("C16.eq", lambda A, B: A != B),
+    "lt": ("C16.order", lambda A, B: A < B),
+    "le": ("C16.order", lambda A, B: A <= B),
+    "gt": ("C16.order", lambda A, B: A > B),
+    "ge": ("C16.order", lambda A, B: A >= B),
+    "ha": ("C16.hash", lambda A, B: A.__hash__()),
+    "hb": ("C16.hash", lambda A, B: B.__hash__()),
+    "add": ("C16.add", lambda A, B: un_time(A + B)),
+    "sub": ("C16.sub", lambda A, B: un_time(A - B)),
+}
+# the remaining grid operations, by the name used in violation details (for --replay)
+GRID_OPS_MORE = {
+    "hash_equal": lambda A, B: hash(A) == hash(B) and len({A, B}) == 1,
+    "hash_of_us": lambda A: hash(A) == hash(A.time * FACTOR[_unit_name(A.unit)]),
+    "is_invalid": lambda A: A.is_invalid(),
+    "mul": lambda A, k: un_time(A * k),
+    "add_assoc_left": lambda A, B, C: un_time((A + B) + C),
+    "add_assoc_right": lambda A, B, C: un_time(A + (B + C)),
+}
+
+
 def _replay_grid(res, cases):
     """Execute every dumped case on the real EventTime and compare with the spec's answer."""
     tally = _Tally(res)
     n = collections.Counter()
-    ops2 = {
-        "eq": ("C16.eq", lambda A, B: A == B),
-        "ne": ("C16.eq", lambda A, B: A != B),
-        "lt": ("C16.order", lambda A, B: A < B),
-        "le": ("C16.order", lambda A, B: A <= B),
-        "gt": ("C16.order", lambda A, B: A > B),
-        "ge": ("C16.order", lambda A, B: A >= B),
-        "ha": ("C16.hash", lambda A, B: A.__hash__()),
-        "hb": ("C16.hash", lambda A, B: B.__hash__()),
-        "add": ("C16.add", lambda A, B: un_time(A + B)),
-        "sub": ("C16.sub", lambda A, B: un_time(A - B)),
-    }
+    ops2 = GRID_OPS
 
     def check(clause, op, operands, exp, got):
         n[clause] += 1
@@ -309,8 +321,8 @@ def _replay_grid(res, cases):
 def _limb_job(scratch, tier, which):
     res = CheckResult(PID, tier)
     if which == "tiny":
-        # base 3 (4), 5 limbs: 0..242 (0..1023); x, y in -70..70 (-400..400): every result fits, exhaustive
-        rng_ = 70 if tier == "quick" else 400
+        # base 3 (4), 5 limbs: 0..242 (0..1023); x, y in -70..70 (-340..340), |k| < base: every result fits, exhaustive
+        rng_ = 70 if tier == "quick" else 340
         consts = {"LimbBase": 3 if tier == "quick" else 4, "LimbN": 5}
         defs = (
             f"VARIABLE c\nInit == c \\in ((0 - {rng_})..{rng_}) \\X ((0 - {rng_})..{rng_})\nNext == UNCHANGED c\n"
@@ -513,9 +525,10 @@ def gen_above_bound():
     for a in vals:
         for b in [(a[0] * FACTOR[a[1]], "us"), (a[0] * FACTOR[a[1]] - 1, "us"), (1, "us"), (1, "s")]:
             calls.append(("pair", a, b))
-    return [(i + 1,) + c for i, c in enumerate(calls)]
+    return [(ABOVE_ID0 + i,) + c for i, c in enumerate(calls)]
 
 
+ABOVE_ID0 = 10**8  # record ids from here on are the above-the-bound probes (never judged)
 _REC = {"pair": rec_pair, "one": rec_one, "mul": rec_mul, "int": rec_int}
 
 
@@ -539,15 +552,17 @@ def _records_job(scratch, tier, name, calls):
     path = os.path.join(scratch, f"records_{name}.json")
     with open(path, "w") as f:
         json.dump(recs, f)
+    # one short line per (record, clause): TLC wraps long values over several lines
     defs = (
         f'Records == JsonDeserialize("{path}")\n'
-        "ASSUME \\A i \\in 1..Len(Records) : LET f == RecFailed(Records[i]) IN "
-        'f = {} \\/ PrintT(<<"@@fail", Records[i].id, f>>)\n'
-        'ASSUME PrintT(<<"@@checked", Len(Records)>>)\n' + TRIVIAL_SPEC
+        "Failed == [i \\in 1..Len(Records) |-> RecFailed(Records[i])]\n"
+        'ASSUME \\A i \\in 1..Len(Records) : \\A c \\in Failed[i] : PrintT(<<"@@fail", Records[i].id, c>>)\n'
+        'ASSUME PrintT(<<"@@checked", Len(Records), Cardinality({i \\in 1..Len(Records) : Failed[i] # {}})>>)\n'
+        + TRIVIAL_SPEC
     )
     mod, cf = mcgen.write_mc(
         scratch, "ErdosTime", {}, name=f"MC_ErdosTimeRecords_{name}", init_next=("Init", "Next"),
-        extends="TLC, Json", extra_defs=defs,
+        extends="TLC, Json, FiniteSets", extra_defs=defs,
     )  # fmt: skip
     r = tlc.run_tlc(mod, cf, workers=1, java_opts=JOPTS, timeout=3000, coverage=False)
     if not r.ok:
@@ -556,10 +571,16 @@ def _records_job(scratch, tier, name, calls):
     if not checked or checked[0][0] != len(recs):
         raise tlc.TLCMachineryError(f"record validation: TLC saw {checked} of {len(recs)} records")
     by_id = {c[0]: (c, rec) for c, rec in zip(calls, recs)}
+    failed = collections.defaultdict(list)
+    for rid, clause in _printed(r, "@@fail"):
+        failed[rid].append(clause)
+    if len(failed) != checked[0][1]:
+        raise tlc.TLCMachineryError(f"record validation: parsed {len(failed)} failing records, TLC counted {checked[0][1]}")
     fails = []
-    for rid, clauses in _printed(r, "@@fail"):
+    for rid, clauses in failed.items():
         c, rec = by_id[rid]
-        fails.append({"id": rid, "clauses": sorted(clauses), "call": _call_desc(c), "record": rec if len(fails) < 40 else None})
+        kept = sum(1 for f in fails if f["record"] is not None and (f["id"] >= ABOVE_ID0) == (rid >= ABOVE_ID0))
+        fails.append({"id": rid, "clauses": sorted(clauses), "call": _call_desc(c), "record": rec if kept < 40 else None})
     res.extra["record_batches"] = [{"batch": name, "records": len(recs), "failed": len(fails), "tlc_wall_s": round(r.wall_s, 1)}]
     res.extra["_fails"] = {name: fails}
     res.extra["_rec_sample"] = [{"call": _call_desc(calls[len(calls) // 7]), "record": recs[len(calls) // 7]}]
@@ -594,7 +615,7 @@ def _queue_mc(scratch, tier, cname, dump):
         extra_defs='ASSUME \\A i \\in Ids, t \\in Times : PrintT(<<"@@key", i, t, KeyTable[i][t]>>)',
     )
     dot = os.path.join(scratch, f"eventqueue_{cname}") if dump else None
-    r = tlc.run_tlc(mod, cf, workers=8, dump_dot=dot, java_opts=JOPTS, timeout=3000)
+    r = tlc.run_tlc(mod, cf, workers=4 if tier == "quick" else 8, dump_dot=dot, java_opts=JOPTS, timeout=3000)
     res.add_tlc(f"EventQueue/{cname}", r)
     if not r.ok:
         _spec_violation(res, r, f"EventQueue ({cname} constants)", QUEUE_CLAUSE, "C16.pop_min")
@@ -602,6 +623,8 @@ def _queue_mc(scratch, tier, cname, dump):
     keytab = {}
     for i, t, k in _printed(r, "@@key"):
         keytab[(i, tuple(t))] = tuple(k)
+    if len(keytab) != len(cfg["Evs"]) * len(cfg["Times"]):
+        raise tlc.TLCMachineryError(f"EventQueue key table: parsed {len(keytab)} entries")
     return res, (dot + ".dot") if dump else None, keytab
 
 
@@ -885,15 +908,15 @@ def run(tier: str) -> CheckResult:
     with Scratch() as scratch:
         calls = gen_calls(tier, rng("c16:records"))
         above = gen_above_bound()
-        nb = 3 if q else 12
+        nb = 2 if q else 12
         batches = [calls[i::nb] for i in range(nb)]
+        batches[0] = batches[0] + above  # the probes ride along in the first batch
         wide = "wide"
         jobs = [("queue_mc", scratch, tier, "paths", True), ("queue_mc", scratch, tier, wide, True)]
         if not q:  # model-checked only: the graph is too large to dump
             jobs.append(("queue_mc", scratch, tier, "wide_thorough", False))
         jobs += [("grid", scratch, tier), ("limbs", scratch, tier, "tiny"), ("limbs", scratch, tier, "boundary")]
         jobs += [("records", scratch, tier, f"b{i}", b) for i, b in enumerate(batches)]
-        jobs += [("records", scratch, tier, "above", above)]
         marks.append(("generated_calls", time.time()))
         parts = parallel(_stage1, jobs, procs=16)
         marks.append(("tlc_stage", time.time()))
@@ -908,10 +931,12 @@ def run(tier: str) -> CheckResult:
         # --- T verdicts
         tally = _Tally(res, per_key=3)
         nfail = 0
+        above_fails = []
         for name, fl in sorted(fails.items()):
-            if name == "above":
-                continue
             for f in fl:
+                if f["id"] >= ABOVE_ID0:
+                    above_fails.append(f)
+                    continue
                 nfail += 1
                 for c in f["clauses"]:
                     if not c.startswith("C16."):
@@ -930,7 +955,7 @@ def run(tier: str) -> CheckResult:
         }  # fmt: skip
         if rsamples:
             res.samples.append({**rsamples[0], "verdict": "RecFailed = {}" if not nfail else "see violations"})
-        ab = [{"call": f["call"], "clauses": f["clauses"]} for f in fails.get("above", [])]
+        ab = [{"call": f["call"], "clauses": f["clauses"]} for f in above_fails]
         res.extra["above_bound"] = {"records": len(above), "deviating": len(ab), "examples": ab[:12]}
         if ab:
             res.notes.append(
@@ -939,6 +964,13 @@ def run(tier: str) -> CheckResult:
             )
         else:
             res.notes.append("probe calls with |us| >= 2^53: no deviation observed")
+        ET = ns().EventTime
+        res.notes.append(
+            "the 'invalid' marker is the plain value -1 us: EventTime(-1, US) == EventTime.invalid() is "
+            f"{mk_time((-1, 'us')) == ET.invalid()}, is_invalid() looks at the count only (EventTime(-1, MS).is_invalid() is "
+            f"{mk_time((-1, 'ms')).is_invalid()} although it is -1000 us != invalid(): {mk_time((-1, 'ms')) != ET.invalid()}); "
+            "by construction, matches IsInvalid in the spec, not judged"
+        )
         # --- R on the queue
         if any(v.clause.startswith("C16.pop") or v.clause == "C16.next_of_type" for v in res.violations if v.key.startswith("spec:")):
             return res
@@ -1025,9 +1057,17 @@ def replay(d: dict) -> int:
             return 1 if still else 0
         return 1 if ad.order_violations else 0
     if "op" in det:  # grid case
-        vals = [mk_time(v) for v in det["operands"] if isinstance(v, list)]
-        print(f"operands {det['operands']} -> real objects {vals}; expected {det['expected']}, recorded {det['got']}")
-        return 1
+        args = [mk_time(v) if isinstance(v, list) else v for v in det["operands"]]
+        op = det["op"]
+        if op == "to":
+            got = _try(lambda: un_time(args[0].to(_unit(args[1]))))
+            exp = ["raised", "ValueError"] if det["expected"] == "ValueError" else ["ok", det["expected"]]
+        else:
+            fn = GRID_OPS[op][1] if op in GRID_OPS else GRID_OPS_MORE[op]
+            got = _try(lambda: fn(*args))
+            exp = ["ok", det["expected"]]
+        print(f"{op}{det['operands']}: spec expects {exp}, code gives {got}: {'STILL DEVIATES' if got != exp else 'now conforms'}")
+        return 1 if got != exp else 0
     if "call" in det:  # recorded call on big magnitudes: execute it again and let TLC judge
         c = det["call"]
         call = (1, c["kind"]) + tuple(tuple(c[k]) if isinstance(c[k], list) else c[k] for k in ("a", "b", "x", "y", "k") if k in c)
